@@ -56,6 +56,18 @@ Definition far_outside (sp : space) (rs : list rint_t) : bool :=
   let S := space_size sp in
   S * S <? sum * 100 ^ (2 * n).
 
+(* ---------- Particle._move_part / Spiral._move_part: (pos + velo).astype(int) then clip ---------- *)
+(* exact dyadic sum z + m*2^e, truncated toward zero (astype(int)); non-finite sums become int64 min *)
+Definition trunc_add (z : Z) (x : xreal) : Z :=
+  match x with
+  | XF m e => if 0 <=? e then z + m * 2 ^ e
+              else let d := 2 ^ (- e) in Z.quot (z * d + m) d
+  | _ => int64_min
+  end.
+Definition move_part (sp : space) (p : pos) (velo : list xreal) : pos :=
+  map (fun mzx => Z.min (Z.max (trunc_add (fst (snd mzx)) (snd (snd mzx))) 0) (fst mzx))
+      (zip (max_positions sp) (zip p velo)).
+
 Section Core.
   Variable sp : space.
   Variable cons : values -> bool.          (* conjunction of all constraints on a decoded parameter set *)
